@@ -576,8 +576,7 @@ func (r *Run) evalCall(env *SpecEnv, x ECall) SV {
 			case *types.TypeName:
 				return r.specConvert(env, ob.Type(), x.Args)
 			case *types.Func:
-				full := ob.FullName()
-				return r.specNativeCall(env, full, nil, x.Args)
+				return r.specNativeCall(env, ob, nil, x.Args)
 			}
 			specFail("cannot call %s.%s", base.pkg.Name(), sel.Sel)
 		}
@@ -590,7 +589,7 @@ func (r *Run) evalCall(env *SpecEnv, x ECall) SV {
 				}
 			}
 			if f, ok := obj.(*types.Func); ok {
-				return r.specNativeCall(env, f.FullName(), &base, x.Args)
+				return r.specNativeCall(env, f, &base, x.Args)
 			}
 		}
 		specFail("cannot resolve call %s", exprString(x))
@@ -647,6 +646,17 @@ func (r *Run) evalCall(env *SpecEnv, x ECall) SV {
 		i := r.eval(env, x.Args[1])
 		v := r.eval(env, x.Args[2])
 		return SV{t: store(a.t, i.t, v.t), T: a.T}
+	case "addr":
+		// addr(p.f.g): the identity of an interior location (see locAsTerm)
+		loc := r.evalLoc(env, x.Args[0])
+		return SV{t: r.locAsTerm(loc), T: types.NewPointer(loc.typ), loc: loc, isAddr: true}
+	case "iface":
+		// iface(x): x converted to an interface value (boxed with its static type)
+		v := r.eval(env, x.Args[0])
+		if isUntyped(v.T) {
+			specFail("iface() needs a typed value")
+		}
+		return SV{t: r.makeIface(v.T, v.t), T: types.NewInterfaceType(nil, nil)}
 	case "zero":
 		T := r.specTypeArg(env, x.Args[0])
 		return SV{t: u.zeroOf(T), T: T}
@@ -692,7 +702,7 @@ func (r *Run) evalCall(env *SpecEnv, x ECall) SV {
 			case *types.TypeName:
 				return r.specConvert(env, ob.Type(), x.Args)
 			case *types.Func:
-				return r.specNativeCall(env, ob.FullName(), nil, x.Args)
+				return r.specNativeCall(env, ob, nil, x.Args)
 			}
 		}
 	}
@@ -741,8 +751,9 @@ func (r *Run) specConvert(env *SpecEnv, T types.Type, args []Expr) SV {
 	return SV{t: v.t, T: T}
 }
 
-// specNativeCall: calls in specs to Go functions that have a pure native model or a pure in-repo definition.
-func (r *Run) specNativeCall(env *SpecEnv, full string, recv *SV, args []Expr) SV {
+// specNativeCall: calls in specs to Go functions that have a pure native model or a `pure` twin of the same
+// (receiver-qualified) name in their package's contract file.
+func (r *Run) specNativeCall(env *SpecEnv, f *types.Func, recv *SV, args []Expr) SV {
 	var svs []SV
 	if recv != nil {
 		svs = append(svs, *recv)
@@ -750,15 +761,71 @@ func (r *Run) specNativeCall(env *SpecEnv, full string, recv *SV, args []Expr) S
 	for _, a := range args {
 		svs = append(svs, r.eval(env, a))
 	}
+	full := f.FullName()
 	if pn, ok := pureNatives[full]; ok {
 		return pn(r, env, svs)
 	}
-	// spec-callable in-repo function: must have a `pure` twin registered under its qualified name
-	if pf := r.eng.puresByGoName[full]; pf != nil {
-		return r.applyPure(env, pf, svs)
+	if f.Pkg() != nil {
+		key := f.Name()
+		sig := f.Type().(*types.Signature)
+		if rv := sig.Recv(); rv != nil {
+			if n, ok := derefNamed(rv.Type()); ok {
+				key = n.Obj().Name() + "." + f.Name()
+			}
+			// value receiver called through a pointer: dereference
+			if recv != nil {
+				if _, isPtr := types.Unalias(rv.Type()).Underlying().(*types.Pointer); !isPtr {
+					if _, argPtr := types.Unalias(svs[0].T).Underlying().(*types.Pointer); argPtr && !svs[0].isAddr {
+						svs[0] = r.derefSV(env, svs[0])
+					} else if svs[0].isAddr {
+						svs[0] = SV{t: r.readLoc(env.cur, svs[0].loc), T: svs[0].loc.typ}
+					}
+				}
+			}
+		}
+		if pf, ok := r.eng.pures[f.Pkg().Path()+"::"+key]; ok {
+			return r.applyPure(env, pf, svs)
+		}
+		// definitional extern: a single `ensures result == E` without modifies can be used as a pure function
+		if fc, ok := r.eng.contracts[full]; ok {
+			if sv, ok := r.applyDefinitional(env, fc, sig, svs); ok {
+				return sv
+			}
+		}
 	}
 	specFail("function %s is not callable in specifications (no pure model)", full)
 	return SV{}
+}
+
+// applyDefinitional: evaluates `E` of a contract whose only clause is `ensures result == E`.
+func (r *Run) applyDefinitional(env *SpecEnv, fc *FuncContract, sig *types.Signature, args []SV) (SV, bool) {
+	if len(fc.Requires) != 0 || len(fc.Modifies) != 0 || len(fc.Ensures) != 1 || sig.Results().Len() != 1 {
+		return SV{}, false
+	}
+	b, ok := fc.Ensures[0].E.(EBinary)
+	if !ok || b.Op != "==" {
+		return SV{}, false
+	}
+	id, ok := b.X.(EIdent)
+	if !ok || id.Name != "result" {
+		return SV{}, false
+	}
+	names := paramNames(sig, fc)
+	if len(names) != len(args) {
+		return SV{}, false
+	}
+	n := &SpecEnv{run: r, pkg: r.eng.specPkgFor(fc, nil), cur: env.cur, old: env.old, vars: map[string]SV{}, bound: env.bound}
+	if n.pkg == nil {
+		n.pkg = env.pkg
+	}
+	for i, nm := range names {
+		n.vars[nm] = args[i]
+	}
+	sv := r.eval(n, b.Y)
+	if isUntyped(sv.T) {
+		sv.T = sig.Results().At(0).Type()
+	}
+	return sv, true
 }
 
 // ---------------------------------------------------------------------------
